@@ -53,12 +53,55 @@ class Motion:
 IDENT = Motion()
 
 
+def _plane3_exact(p1, p2, p3):
+    '''The orientation rule in the arithmetic of the card itself: when every
+    coordinate is a short decimal number (at most six decimals, as a user
+    types them), the cross product and D are computed with rational numbers
+    and "zero" means zero - no tolerance is involved.  Returns None for
+    coordinates that are not short decimals (computed values printed with
+    seventeen digits): their exact value is the rounding noise of whoever
+    computed them.'''
+    from fractions import Fraction
+    pts = []
+    for pnt in (p1, p2, p3):
+        row = []
+        for val in pnt:
+            val = float(val)
+            if abs(val) > 1e7 or round(val, 6) != val:
+                return None
+            row.append(Fraction(repr(val)))
+        pts.append(row)
+    d12 = [b - a for a, b in zip(pts[0], pts[1])]
+    d13 = [b - a for a, b in zip(pts[0], pts[2])]
+    nrm = [d12[1] * d13[2] - d12[2] * d13[1],
+           d12[2] * d13[0] - d12[0] * d13[2],
+           d12[0] * d13[1] - d12[1] * d13[0]]
+    if not any(nrm):
+        return None
+    dval = sum(n * c for n, c in zip(nrm, pts[0]))
+    if dval != 0:
+        flip = dval < 0
+    elif nrm[2] != 0:
+        flip = nrm[2] < 0
+    elif nrm[1] != 0:
+        flip = nrm[1] < 0
+    else:
+        flip = nrm[0] < 0
+    length = math.sqrt(float(sum(n * n for n in nrm)))
+    sign = -1.0 if flip else 1.0
+    return (sign * float(nrm[0]) / length, sign * float(nrm[1]) / length,
+            sign * float(nrm[2]) / length, sign * float(dval) / length)
+
+
 def plane3_params(pts):
     '''MCNP orientation rule for a plane through three points: returns (A,B,C,D)
     of Ax+By+Cz-D=0 such that the origin has negative sense; if the plane
     passes through the origin (D=0) the point (0,0,inf) has positive sense; if
     also C=0 then (0,inf,0); if also B=0 then (inf,0,0).'''
     p1, p2, p3 = (np.asarray(p, dtype=float) for p in pts)
+    exact = _plane3_exact(p1, p2, p3)
+    if exact is not None:
+        return exact
     nrm = np.cross(p2 - p1, p3 - p1)
     length = np.linalg.norm(nrm)
     nrm = nrm / length
